@@ -3,7 +3,7 @@
    three rules whose effect is not a plain push (the start rule, continuedJsonpath with its node chain,
    jsonpathFilter with its save/load of the parameter list) are proved by hand in the same logic.
    Result: replaying the tokens of any successful match never reaches a crash site of the action model. *)
-From JP Require Import Peg Grammar Text Tree Actions Eval WF AccDefs PegFacts ParseFacts ErrPos StackLogic TreeWf StackActs StackCheck.
+From JP Require Import Peg Grammar Text Tree Actions Eval WF AccDefs ErrSpec PegFacts ParseFacts ErrPos StackLogic TreeWf TreeText StackActs StackCheck.
 From Coq Require Import Lia.
 Open Scope list_scope.
 Open Scope nat_scope.
@@ -11,27 +11,27 @@ Open Scope nat_scope.
 Definition summaries : list summary := [
   (*  0 expression *) SNone;
   (*  1 END *) SPush CAny [];
-  (*  2 jsonpath *) SPush CInit [TNode];
+  (*  2 jsonpath *) SPush CInit [TNodeT];
   (*  3 jsonpathParameter *) SPush CEmpty [TRootedH];
   (*  4 continuedJsonpath *) SChain;
-  (*  5 rootNode *) SPush CInv [TNode];
+  (*  5 rootNode *) SPush CInv [TNodeT];
   (*  6 parameterRootNode *) SPush CAny [TRooted];
-  (*  7 childNode *) SPush CInv [TNode];
-  (*  8 function *) SPush CAny [TNode];
+  (*  7 childNode *) SPush CInv [TNodeT];
+  (*  8 function *) SPush CAny [TFT];
   (*  9 functionName *) SPush CAny [TStr];
-  (* 10 bracketNode *) SPush CInv [TNode];
+  (* 10 bracketNode *) SPush CInv [TFT];
   (* 11 rootIdentifier *) SPush CAny [TRooted];
   (* 12 currentRootIdentifier *) SPush CAny [TRooted];
-  (* 13 dotChildIdentifier *) SPush CAny [TNode];
+  (* 13 dotChildIdentifier *) SPush CAny [TFIT];
   (* 14 signsWithoutHyphenUnderscore *) SPush CAny [];
-  (* 15 bracketChildIdentifier *) SPush CAny [TNode];
-  (* 16 bracketNodeIdentifier *) SPush CAny [TNode];
-  (* 17 wildcardIdentifier *) SPush CAny [TNode];
-  (* 18 singleQuotedNodeIdentifier *) SPush CAny [TNode];
-  (* 19 doubleQuotedNodeIdentifier *) SPush CAny [TNode];
+  (* 15 bracketChildIdentifier *) SPush CAny [TFM];
+  (* 16 bracketNodeIdentifier *) SPush CAny [TFI];
+  (* 17 wildcardIdentifier *) SPush CAny [TFIT];
+  (* 18 singleQuotedNodeIdentifier *) SPush CAny [TFI];
+  (* 19 doubleQuotedNodeIdentifier *) SPush CAny [TFI];
   (* 20 hexDigits *) SPush CAny [];
   (* 21 hexDigit *) SPush CAny [];
-  (* 22 qualifier *) SPush CInv [TNode];
+  (* 22 qualifier *) SPush CInv [TF];
   (* 23 union *) SPush CAny [TUnion];
   (* 24 index *) SPush CAny [TUnion];
   (* 25 slice *) SPush CAny [TIdx; TIdx; TIdx];
@@ -41,7 +41,7 @@ Definition summaries : list summary := [
   (* 29 sepSlice *) SPush CAny [];
   (* 30 script *) SBot;
   (* 31 command *) SPush CAny [];
-  (* 32 filter *) SPush CInv [TNode];
+  (* 32 filter *) SPush CInv [TF];
   (* 33 query *) SPush CInv [TQuery];
   (* 34 andQuery *) SPush CInv [TQuery];
   (* 35 basicQuery *) SPush CInv [TQuery];
@@ -70,7 +70,7 @@ Definition summaries : list summary := [
   (* 58 space *) SPush CAny []
 ].
 Definition summary_of (r : nat) : summary := nth r summaries SNone.
-Definition claimed (r : nat) : bool := existsb (Nat.eqb r) [3; 6; 11; 12; 44].
+Definition claimed (r : nat) : bool := existsb (Nat.eqb r) [3; 6; 11; 12; 44; 50].
 
 Notation G := jsonpath_grammar.
 Notation check := (check summary_of claimed).
@@ -100,7 +100,7 @@ Proof. vm_compute. reflexivity. Qed.
 Lemma claimed_ok : forall r body, claimed r = true -> nth_error G r = Some body -> consumesb claimed body = true.
 Proof.
   intros r body Hc Hn. unfold claimed in Hc. apply existsb_eqb_in in Hc.
-  cbn [In] in Hc. destruct Hc as [<-|[<-|[<-|[<-|[<-|[]]]]]]; vm_compute in Hn; inversion Hn; reflexivity.
+  cbn [In] in Hc. destruct Hc as [<-|[<-|[<-|[<-|[<-|[<-|[]]]]]]]; vm_compute in Hn; inversion Hn; reflexivity.
 Qed.
 
 Section Rules.
@@ -155,21 +155,25 @@ Section Rules.
   Lemma nwf_split n : nwf n = true <-> wf_node n = true /\ vgc n = true /\ acc_clean n = true.
   Proof. unfold nwf. rewrite !andb_true_iff. tauto. Qed.
 
-  Lemma chain_fold : forall nodes root, nwf root = true -> Forall (fun n => nwf n = true) nodes -> exists root',
-    fold_left chain_step (map INode nodes) (AOk root) = AOk root' /\ rootedb root' = rootedb root /\ nwf root' = true.
+  Definition cnode (n : node) : Prop := nwf n = true /\ tlp true n = true.
+  Lemma chain_fold : forall nodes root, cnode root -> Forall cnode nodes -> exists root',
+    fold_left chain_step (map INode nodes) (AOk root) = AOk root' /\ rootedb root' = rootedb root /\ cnode root'.
   Proof.
-    induction nodes as [|a nodes IH]; intros root Hr Hn; cbn [map fold_left].
-    - exists root. split; [reflexivity|split; [reflexivity|exact Hr]].
-    - inversion Hn as [|? ? Ha Hrest]; subst.
+    induction nodes as [|a nodes IH]; intros root [Hr Hrt] Hn; cbn [map fold_left].
+    - exists root. split; [reflexivity|split; [reflexivity|split; assumption]].
+    - inversion Hn as [|? ? [Ha Hat] Hrest]; subst.
       apply nwf_split in Hr. destruct Hr as (Hr1 & Hr2 & Hr3). pose proof Ha as Ha'. apply nwf_split in Ha'. destruct Ha' as (Ha1 & Ha2 & Ha3).
-      assert (Happ : nwf (append_deep root a) = true).
-      { apply nwf_split. split; [apply wf_append_deep; assumption|]. split; [apply vgc_append_deep; assumption|apply acc_clean_append_deep; assumption]. }
+      assert (Happ : cnode (append_deep root a)).
+      { split; [|apply tlp_append; [apply tlp_mono; exact Hrt|exact Hat]].
+        apply nwf_split. split; [apply wf_append_deep; assumption|]. split; [apply vgc_append_deep; assumption|apply acc_clean_append_deep; assumption]. }
       destruct a as [k bb nx].
       destruct k; cbn [chain_step abind];
         try (destruct (IH _ Happ Hrest) as (r' & E & R & W); exists r'; split; [exact E|split; [rewrite R; apply rootedb_append_deep|exact W]]).
       (* an aggregate takes the chain so far as its parameter *)
-      assert (Hagg : nwf (Node (KAgg f (clear_acc (update_vg root))) bb nx) = true).
-      { apply nwf_split. cbn [wf_node vgc single_kind orb acc_clean] in *. split; [|split].
+      assert (Hagg : cnode (Node (KAgg f (clear_acc (update_vg root))) bb nx)).
+      { split; [|rewrite tlp_eq in *; rewrite tlp_clear_acc, tlp_update_vg, (tlp_mono root Hrt); cbn [andb];
+                 apply andb_true_iff in Hat; apply Hat].
+        apply nwf_split. cbn [wf_node vgc single_kind orb acc_clean] in *. split; [|split].
         - apply andb_true_iff in Ha1. destruct Ha1 as [_ Hnx]. rewrite wf_clear_acc, wf_update_vg, Hr1. exact Hnx.
         - exact Ha2.
         - apply andb_true_iff in Ha3. destruct Ha3 as [_ Hnx]. rewrite all_false_clear_acc by (rewrite acc_clean_update_vg; exact Hr3). exact Hnx. }
@@ -179,31 +183,34 @@ Section Rules.
   Qed.
 
   Definition chainJ (x : node) sv pr : asrt :=
-    fun y => exists nodes, snd y = mk (INode x :: map INode nodes) sv pr /\ Forall (fun n => nwf n = true) nodes.
+    fun y => exists nodes, snd y = mk (INode x :: map INode nodes) sv pr /\ Forall cnode nodes.
 
-  Lemma chain_call f e x sv pr : Rules f -> check CInv e init_a = Some (Some (mkA [TNode] false)) ->
+  Lemma chain_call f e t x sv pr : Rules f -> check CInv e init_a = Some (Some (mkA [t] false)) ->
+    subty t TNodeT = true ->
     tr f e (chainJ x sv pr) (chainJ x sv pr).
   Proof.
-    intros HR Hc. apply tr_pre_ex. intros x0 (nodes & Hs & Hn).
+    intros HR Hc Hsub. apply tr_pre_ex. intros x0 (nodes & Hs & Hn).
     eapply tr_conseq; [| |exact (call_rule f e CInv _ (INode x :: map INode nodes) sv pr HR Hc ltac:(intros H; discriminate H))].
     - intros z ->. exact Hs.
     - intros z (vals & Ht & Hs1 & _). cbn [a_stk] in Ht.
       inversion Ht as [|v ? vs ? Hv Hvs]; subst. inversion Hvs; subst.
+      apply (has_ty_sub v t TNodeT) in Hv; [|exact Hsub].
       destruct v; try discriminate Hv. exists (nodes ++ [n]). split.
       + rewrite Hs1. cbn [rev app]. rewrite map_app. reflexivity.
-      + apply Forall_app. split; [exact Hn|]. constructor; [exact Hv|constructor].
+      + apply Forall_app. split; [exact Hn|]. constructor; [|constructor].
+        cbn [has_ty] in Hv. apply andb_true_iff in Hv. exact Hv.
   Qed.
 
   Lemma rule4 f : Rules f -> Sem (S f) 4 SChain.
   Proof.
-    intros HR x sv pr Hx. eapply tr_ref; [reflexivity|].
+    intros HR x sv pr Hx Hxt. eapply tr_ref; [reflexivity|].
     eapply tr_seq with (R := chainJ x sv pr).
     { eapply tr_conseq; [| |apply tr_star with (J := chainJ x sv pr)].
       - intros z Hz. exists []. split; [exact Hz|constructor].
       - intros z Hz. exact Hz.
-      - apply chain_call; [exact HR|reflexivity]. }
+      - apply (chain_call f (PRef 7) TNodeT); [exact HR|reflexivity|reflexivity]. }
     eapply tr_seq with (R := chainJ x sv pr).
-    { apply tr_star. apply chain_call; [exact HR|reflexivity]. }
+    { apply tr_star. apply (chain_call f (PRef 8) TFT); [exact HR|reflexivity|reflexivity]. }
     eapply tr_seq with (R := chainJ x sv pr).
     { apply tr_pre_ex. intros x0 (nodes & Hs & Hn).
       eapply tr_conseq; [| |exact (call_rule f (PRef 58) CAny (Some init_a) (INode x :: map INode nodes) sv pr HR eq_refl I)].
@@ -212,17 +219,17 @@ Section Rules.
         exists nodes. split; [|exact Hn]. rewrite Hs1. cbn [rev]. rewrite app_nil_r. reflexivity. }
     apply tr_act. intros cps b st (nodes & Hs & Hn). cbn [snd] in Hs. subst st.
     cbn [Actions.exec_action]. unfold set_node_chain. cbn [params mk].
-    assert (Hfin : forall r0, nwf r0 = true -> nwf (update_vg r0) = true /\ hvg (update_vg r0) = true).
-    { intros r0 H0. apply nwf_split in H0. destruct H0 as (H1 & H2 & H3). split; [|apply hvg_update_vg].
+    assert (Hfin : forall r0, cnode r0 -> nwf (update_vg r0) = true /\ tlp true (update_vg r0) = true /\ hvg (update_vg r0) = true).
+    { intros r0 [H0 H0t]. apply nwf_split in H0. destruct H0 as (H1 & H2 & H3). split; [|split; [rewrite tlp_update_vg; exact H0t|apply hvg_update_vg]].
       apply nwf_split. split; [rewrite wf_update_vg; exact H1|]. split; [apply vgc_update_vg; exact H2|rewrite acc_clean_update_vg; exact H3]. }
     destruct nodes as [|n1 ns].
     - cbn [map abind update_root_vg params wpa]. unfold update_root_vg. cbn [params wpa].
-      exists (update_vg x). destruct (Hfin x Hx) as [F1 F2]. repeat split; try assumption.
+      exists (update_vg x). destruct (Hfin x (conj Hx Hxt)) as (F1 & F2 & F3). repeat split; try assumption.
       intros Hr. rewrite rootedb_update_vg. exact Hr.
     - change (INode n1 :: map INode ns) with (map INode (n1 :: ns)).
-      destruct (chain_fold (n1 :: ns) x Hx Hn) as (root' & E & R & W).
+      destruct (chain_fold (n1 :: ns) x (conj Hx Hxt) Hn) as (root' & E & R & W).
       cbn [map] in *. rewrite E. cbn [abind]. unfold update_root_vg, with_params. cbn [params saved proot wpa].
-      exists (update_vg root'). destruct (Hfin root' W) as [F1 F2]. repeat split; try assumption.
+      exists (update_vg root'). destruct (Hfin root' W) as (F1 & F2 & F3). repeat split; try assumption.
       intros Hr. rewrite rootedb_update_vg, R. exact Hr.
   Qed.
 
@@ -258,6 +265,7 @@ Section Rules.
                   (fun st' => exists p b0, snd (cps, b, st') = mk (ps0 ++ [IPQ p; IBool b0]) sv0 pr /\ pq_ok p b0)).
     { intros cps b n ps0 sv0 Hv. cbn [has_ty] in Hv. apply andb_true_iff in Hv. destruct Hv as [Hv Hh].
       apply andb_true_iff in Hv. destruct Hv as [Hn Hroot]. unfold rootedb in Hroot.
+      apply andb_true_iff in Hn. destruct Hn as [Hn _].
       destruct (operand_ok n Hn Hh) as [O1 O2].
       unfold pop_node. rewrite pop_G. cbn [abind].
       destruct (node_kind (innermost n)) eqn:Ek; try discriminate Hroot; cbn [wpa snd]; rewrite !push_G; cbn [rev app].
@@ -332,17 +340,20 @@ Section Rules.
   Qed.
 
   (* ---------- the start rule ---------- *)
-  Lemma rule0 f : tr (S f) (PRef 0) (at_ ps_init) (fun y => exists t, proot (snd y) = Some t /\ wf_node t = true /\ acc_clean t = true).
+  Lemma rule0 f : tr (S f) (PRef 0) (at_ ps_init) (fun y => exists t, proot (snd y) = Some t /\ wf_node t = true /\ acc_clean t = true /\ ctext_ok t = true).
   Proof.
     pose proof (rules_all f) as HR. eapply tr_ref; [reflexivity|]. apply tr_alt.
     - (* jsonpath END {0} *)
       eapply tr_seq; [exact (call_rule f (PRef 2) CInit _ [] [] None HR eq_refl (conj eq_refl eq_refl))|].
-      eapply tr_seq; [exact (check_sound f HR (PRef 1) CInit (mkA [TNode] false) _ eq_refl [] [] None (conj eq_refl eq_refl))|].
+      eapply tr_seq; [exact (check_sound f HR (PRef 1) CInit (mkA [TNodeT] false) _ eq_refl [] [] None (conj eq_refl eq_refl))|].
       apply tr_act. intros cps b st (vals & Ht & Hs & _). cbn [snd a_stk] in *. subst st.
       inversion Ht as [|v ? vs ? Hv Hvs]; subst. inversion Hvs; subst. destruct v; try discriminate Hv.
       cbn [Actions.exec_action]. unfold pop_node. rewrite pop_G. cbn [abind wpa proot snd].
-      eexists. split; [reflexivity|]. cbn [has_ty] in Hv. apply nwf_split in Hv. destruct Hv as (Hw & _ & Hacc).
-      split; [rewrite wf_set_ctext_deep; apply wf_delete_root; exact Hw|rewrite acc_clean_set_ctext_deep; apply acc_clean_delete_root; exact Hacc].
+      eexists. split; [reflexivity|]. cbn [has_ty] in Hv. apply andb_true_iff in Hv. destruct Hv as [Hv Htl].
+      apply nwf_split in Hv. destruct Hv as (Hw & _ & Hacc).
+      split; [rewrite wf_set_ctext_deep; apply wf_delete_root; exact Hw|].
+      split; [rewrite acc_clean_set_ctext_deep; apply acc_clean_delete_root; exact Hacc|].
+      apply (ctext_ok_set true (delete_root n) ""); [apply tlp_delete_root; exact Htl|discriminate].
     - (* the catch-all alternative always ends in action 1 *)
       eapply tr_seq with (R := fun _ => True).
       { apply tr_opt; [|trivial].
@@ -378,7 +389,7 @@ Section Rules.
 
   (* every tree Parse returns is well formed: the evaluator theorems apply to it *)
   Theorem parse_builds_wf_acc input t :
-    parse_with cfg parse_float regex_ok G input = ParseOk t -> wf_node t = true /\ acc_clean t = true.
+    parse_with cfg parse_float regex_ok G input = ParseOk t -> wf_node t = true /\ acc_clean t = true /\ ctext_ok t = true.
   Proof.
     unfold parse_with, parse_from, peg_parse. generalize (parse_fuel input). intros fuel.
     destruct (run G fuel (PRef 0) input 0) as [| |rest pos toks] eqn:Er; try discriminate.
@@ -396,5 +407,9 @@ Section Rules.
   (* ... and function parameters and filter operands carry no accessor flag (hypothesis of C12) *)
   Theorem parse_builds_acc_clean input t :
     parse_with cfg parse_float regex_ok G input = ParseOk t -> acc_clean t = true.
-  Proof. intros H. exact (proj2 (parse_builds_wf_acc input t H)). Qed.
+  Proof. intros H. exact (proj1 (proj2 (parse_builds_wf_acc input t H))). Qed.
+  (* ... and every node that can report an error carries a non-empty remaining-path text (hypothesis of C15) *)
+  Theorem parse_builds_ctext_ok input t :
+    parse_with cfg parse_float regex_ok G input = ParseOk t -> ctext_ok t = true.
+  Proof. intros H. exact (proj2 (proj2 (parse_builds_wf_acc input t H))). Qed.
 End Rules.
